@@ -232,6 +232,19 @@ def explore(ctx):
                  "reqs": [], "rules": [], "unregistered": [], "ireqs": []}
     run_hist(ctx, base, tidy_spec, [("iter", "h1"), ("iter", "h1"), ("iter", "h1")], {"scenario": "tidy-up"})
     ctx.count("history-tidy-up")
+    # a released copy that is the source of a pending transfer stays (copy ids differ from file ids: the second file's copies come later)
+    for wants in ("N", "M"):
+        nodes = [{"name": f"n{i}", "group": f"g{i}", "stype": "A" if i != 1 or wants == "N" else "F", "host": "h1", "active": True, "username": "u", "address": "addr"} for i in (1, 2, 3)]
+        nodes.append({"name": "n4", "group": "g4", "stype": "A", "host": "h2", "active": False, "username": "u", "address": "addr"})
+        if wants == "M":
+            nodes[0]["min_avail_gb"] = 10 ** 7
+        src_spec = {"groups": [{"name": f"g{i}"} for i in (1, 2, 3, 4)], "nodes": nodes, "acqs": ["acq1"],
+                    "files": [{"acq": "acq1", "name": "f0", "size": 13}, {"acq": "acq1", "name": "f1", "size": 150}],
+                    "copies": [{"file": 0, "node": n, "has": "Y", "wants": "Y"} for n in ("n1", "n2", "n3")] + [{"file": 1, "node": "n1", "has": "Y", "wants": wants}]
+                              + [{"file": 1, "node": n, "has": "Y", "wants": "Y"} for n in ("n2", "n3")],
+                    "reqs": [{"file": 1, "from": "n1", "to": "g4", "state": "pending"}], "rules": [], "unregistered": [], "ireqs": []}
+        run_hist(ctx, base, src_spec, [("iter", "h1"), ("iter", "h1")], {"scenario": "pending-source"})
+        ctx.count("history-pending-source")
     # the known finding: h2's daemon deletes its copy between h1's count and h1's unlink
     run_hist(ctx, base, KF_SPEC, [("interleave", "h1", "h2")], {"scenario": "KF-C01-1"})
     ctx.count("history-known-finding")
